@@ -416,4 +416,167 @@ theorem administers_sound (u : UserView) (r : Relation) (id bm : List Nat) (hr :
   · exact Or.inl h
   · exact Or.inr (is_uBM_sound id bm hv hw (hr ▸ h))
 
+/-! ### who the caller is: ptt.InitCurrentUser behind every bbs entry point
+
+"Whether a user may see a board's content is a fixed function of the USER": the account a client-supplied id designates
+(lookup ignores letter case) and the permissions it acts with must not depend on how the id was spelled. -/
+
+/-- the source special-cases the built-in accounts by the id of the LOADED record: guest first, then SYSOP -/
+theorem init_special_source :
+    Gen.ReadEntryPoints.initCurrentUserSpecial =
+      [("loaded", [103, 117, 101, 115, 116], "pwcuInitGuestPerm"), ("loaded", [83, 89, 83, 79, 80], "pwcuInitAdminPerm")] := by decide
+
+/-- two spellings that differ in letter case only give the same account, the same uid and the same permissions —
+for every user table, every stored record and every pair of spellings. -/
+theorem spelling_irrelevant (tbl : UserTable) (stored : W) (o18 : Bool) (s1 s2 : List Nat) (h : caseEq s1 s2 = true) :
+    initCurrentUser tbl stored o18 s1 = initCurrentUser tbl stored o18 s2 := by
+  unfold initCurrentUser initCurrentUserWith
+  have h0 : (s1.headD 0 = 0) ↔ (s2.headD 0 = 0) := by rw [headD_zero_iff, headD_zero_iff]; exact caseEq_nil s1 s2 h
+  rw [searchUser_caseEq tbl s1 s2 h]
+  by_cases ha : s1.headD 0 = 0
+  · rw [if_pos ha, if_pos (h0.1 ha)]
+  · rw [if_neg ha, if_neg (fun hb => ha (h0.2 hb))]
+    have hl : ∀ e ∈ Gen.ReadEntryPoints.initCurrentUserSpecial, e.1 = "loaded" := by decide
+    have hsp : ∀ recId, applySpecials s1 recId Gen.ReadEntryPoints.initCurrentUserSpecial stored =
+        applySpecials s2 recId Gen.ReadEntryPoints.initCurrentUserSpecial stored :=
+      fun recId => applySpecials_loaded s1 s2 recId _ stored hl
+    simp only [hsp]
+
+/-- hence every read entry point answers the same for both spellings -/
+theorem same_decision_any_spelling (tbl : UserTable) (stored : W) (o18 : Bool) (s1 s2 : List Nat) (h : caseEq s1 s2 = true)
+    (entry : String) (b : BoardView) (r : Relation) (valid : Bool) :
+    (match initCurrentUser tbl stored o18 s1 with
+     | .ok _ _ u => some (runEntry entry { u := u, b := b, r := r, bidValid := valid, precheck := false })
+     | _ => none) =
+    (match initCurrentUser tbl stored o18 s2 with
+     | .ok _ _ u => some (runEntry entry { u := u, b := b, r := r, bidValid := valid, precheck := false })
+     | _ => none) := by
+  rw [spelling_irrelevant tbl stored o18 s1 s2 h]
+
+/-- whatever is stored in its record and however its id is spelled, the guest account acts with no permission bit and
+the SYSOP account with the administrator's, which reads every board -/
+theorem builtin_accounts (tbl : UserTable) (stored : W) (o18 : Bool) (s : List Nat) (uid : Int) (id : List Nat) (u : UserView)
+    (h : initCurrentUser tbl stored o18 s = .ok uid id u) :
+    (cstr id = [103, 117, 101, 115, 116] → u.level = 0#32) ∧
+    (cstr id = [83, 89, 83, 79, 80] → ∀ b r, Spec.mayRead u b r = true) := by
+  unfold initCurrentUser initCurrentUserWith at h
+  rw [init_special_source] at h
+  by_cases h0 : s.headD 0 = 0
+  · rw [if_pos h0] at h; exact absurd h (by simp)
+  · rw [if_neg h0] at h
+    dsimp only at h
+    by_cases hv : (!uidValid (searchUser tbl s)) = true
+    · rw [if_pos hv] at h; exact absurd h (by simp)
+    · rw [if_neg hv] at h
+      cases hid : idOf tbl (searchUser tbl s) with
+      | none => rw [hid] at h; exact absurd h (by simp)
+      | some recId =>
+        rw [hid] at h
+        simp only [applySpecials, ↓reduceIte] at h
+        have hsys : ∀ uid' : Int, Spec.sysop { level := w Gen.ReadEntryPoints.adminPerm, over18 := o18, uid := uid' } = true := by
+          intro uid'; show (w Gen.ReadEntryPoints.adminPerm).getLsbD 14 = true; decide
+        cases e1 : cstrEq recId [103, 117, 101, 115, 116] <;> cases e2 : cstrEq recId [83, 89, 83, 79, 80]
+        all_goals simp only [e1, e2, Bool.false_eq_true, ↓reduceIte, String.reduceEq, Loaded.ok.injEq] at h
+        all_goals obtain ⟨_, hrec, hu⟩ := h
+        all_goals subst hrec
+        all_goals subst hu
+        all_goals simp only [cstrEq, beq_iff_eq, beq_eq_false_iff_ne, ne_eq] at e1 e2
+        · exact ⟨fun hg => absurd hg e1, fun hs => absurd hs e2⟩
+        · refine ⟨fun hg => absurd hg e1, fun _ b r => ?_⟩
+          simp [Spec.mayRead, hsys]
+        · exact ⟨fun _ => rfl, fun hs => absurd hs e2⟩
+        · rw [e1] at e2; exact absurd e2 (by decide)
+
+/-- the broken rule, for the record: special-casing by the id the CALLER typed makes "sysop" and "SYSOP" two different
+users of the same account (default fixture table, stored bits 037) -/
+theorem special_by_supplied_splits_account :
+    let tbl : UserTable := [(1, [83, 89, 83, 79, 80]), (5, [103, 117, 101, 115, 116])]
+    let bySupplied := [("supplied", [103, 117, 101, 115, 116], "pwcuInitGuestPerm"), ("supplied", [83, 89, 83, 79, 80], "pwcuInitAdminPerm")]
+    initCurrentUserWith bySupplied tbl 31#32 false [115, 121, 115, 111, 112] ≠ initCurrentUserWith bySupplied tbl 31#32 false [83, 89, 83, 79, 80] ∧
+    initCurrentUser tbl 31#32 false [115, 121, 115, 111, 112] = initCurrentUser tbl 31#32 false [83, 89, 83, 79, 80] := by
+  decide +kernel
+
+/-! ### who moderates a board: cache.ResetBoard → buildBMCache → ParseBMList
+
+"moderator OF THAT BOARD": the moderator cache of a board is a function of that board's own moderator string (and the
+user table), whatever boards were created or reset before. -/
+
+/-- ParseBMList writes into a freshly allocated array (read from the source) -/
+theorem bmlist_fresh_array : Gen.ReadEntryPoints.parseBMListFreshArray = true := by decide
+
+theorem parseBMList_length (tbl : UserTable) (bm : List Nat) : (parseBMList tbl bm).length = MAX_BMs := by
+  unfold parseBMList
+  have := parseLoop_length tbl (Spec.splitSlash (cstr bm)) [] (by simp)
+  simp; omega
+
+/-- every cached moderator of a board is a valid uid found under one of the '/'-separated names of THAT board's
+moderator string; the other slots hold -1 -/
+theorem moderators_come_from_own_string (tbl : UserTable) (bm : List Nat) (u : Int) (h : u ∈ parseBMList tbl bm) :
+    u = -1 ∨ (uidValid u = true ∧ ∃ n ∈ Spec.splitSlash (cstr bm), searchUser tbl (n.take 13) = u) := by
+  unfold parseBMList at h
+  rcases List.mem_append.1 h with h1 | h1
+  · rcases parseLoop_mem tbl _ [] u h1 with h2 | h2
+    · exact absurd h2 (by simp)
+    · exact Or.inr h2
+  · left; exact (List.mem_replicate.1 h1).2
+
+/-- the moderator string of the last reset of `bid` in a history -/
+def lastReset (bid : Int) : List (Int × List Nat) → Option (List Nat)
+  | [] => none
+  | e :: rest =>
+    match lastReset bid rest with
+    | some bm => some bm
+    | none => if e.1 = bid then some e.2 else none
+
+def runResets (tbl : UserTable) (st : BMCacheSt) (hist : List (Int × List Nat)) : BMCacheSt :=
+  hist.foldl (fun st e => buildBMCache tbl st e.1 e.2) st
+
+/-- for EVERY history of board creations / resets: the moderator cache of a board is the parse of the moderator string
+of ITS last reset — nothing of the boards handled before or in between carries over. -/
+theorem moderator_cache_history_independent (tbl : UserTable) (hist : List (Int × List Nat)) (st : BMCacheSt) (bid : Int) :
+    bmCacheOf (runResets tbl st hist) bid =
+      match lastReset bid hist with
+      | some bm => parseBMList tbl bm
+      | none => bmCacheOf st bid := by
+  induction hist generalizing st with
+  | nil => rfl
+  | cons e rest ih =>
+    unfold runResets at ih ⊢
+    simp only [List.foldl_cons]
+    rw [ih]
+    have hstep : lastReset bid (e :: rest) =
+        (match lastReset bid rest with
+         | some bm => some bm
+         | none => if e.1 = bid then some e.2 else none) := rfl
+    rw [hstep]
+    cases hl : lastReset bid rest with
+    | some bm => rfl
+    | none =>
+      simp only []
+      rw [bmCacheOf_build]
+      by_cases he : e.1 = bid <;> simp [he]
+
+/-- so an account that the board's own last moderator string does not name is not in that board's cache -/
+theorem no_moderator_carry_over (tbl : UserTable) (hist : List (Int × List Nat)) (bid : Int) (bm : List Nat) (u : Int)
+    (hl : lastReset bid hist = some bm) (hu : uidValid u = true)
+    (hn : ∀ n ∈ Spec.splitSlash (cstr bm), searchUser tbl (n.take 13) ≠ u) :
+    u ∉ bmCacheOf (runResets tbl [] hist) bid := by
+  rw [moderator_cache_history_independent, hl]
+  intro hm
+  rcases moderators_come_from_own_string tbl bm u hm with h1 | ⟨_, n, hn1, hn2⟩
+  · subst h1; simp [uidValid] at hu
+  · exact hn n hn1 hn2
+
+/-- the broken rule, for the record: ParseBMList writing into one SHARED array leaves the moderators of the board
+parsed before in the slots a shorter list does not overwrite -/
+def parseShared (tbl : UserTable) (shared : List Int) (bm : List Nat) : List Int :=
+  let found := parseLoop tbl (Spec.splitSlash (cstr bm)) []
+  found ++ shared.drop found.length
+
+theorem shared_array_carries_moderators_over :
+    let tbl : UserTable := [(3, [98, 117, 100, 100, 121]), (4, [111, 116, 104, 101, 114])]
+    let a := parseShared tbl [-1, -1, -1, -1] [98, 117, 100, 100, 121, 47, 111, 116, 104, 101, 114]   -- board A: "buddy/other"
+    let b := parseShared tbl a []                                                                          -- board B: no moderators
+    b = [3, 4, -1, -1] ∧ parseBMList tbl [] = [-1, -1, -1, -1] := by decide +kernel
+
 end PttVerif.C07.Props
